@@ -357,6 +357,166 @@ theorem den_internAllP (reqs : List σ) :
     congr 1
     rw [ht, idxOf?_append_of_mem hmem]
 
+theorem dedupFrom_nodup (acc rs : List σ) (h : acc.Nodup) : (dedupFrom acc rs).Nodup := by
+  induction rs generalizing acc with
+  | nil => simpa [dedupFrom] using h
+  | cons r rs ih =>
+    by_cases hr : r ∈ acc
+    · simp only [dedupFrom, hr, if_true]; exact ih acc h
+    · simp only [dedupFrom, hr, if_false]
+      apply ih
+      rw [List.nodup_append]
+      refine ⟨h, by simp, ?_⟩
+      intro a ha b hb
+      simp only [List.mem_singleton] at hb
+      subst hb
+      intro e; subst e; exact hr ha
+
+theorem dedupFirstSeen_nodup (reqs : List σ) : (dedupFirstSeen reqs).Nodup :=
+  dedupFrom_nodup [] reqs List.nodup_nil
+
 end Interner
+
+/-! ### PouIdMap -/
+
+section Pou
+
+theorem allocId_of_le {next : Nat} (h : next + 1 ≤ u32Max) : allocId next = (next, next + 1) := by
+  unfold allocId
+  have : ¬ next + 1 > u32Max := by omega
+  simp [this]
+
+/-- The map contents after inserting `ks` with consecutive ids starting at `next`. -/
+def keysF (ks : List (PouMap × PouKey)) (next : Nat) (f : PouMap → PouKey → Option Nat) :
+    PouMap → PouKey → Option Nat :=
+  fun m k => match idxOf? (m, k) ks with
+    | some j => some (next + j)
+    | none => f m k
+
+theorem den_insertAllP (ks : List (PouMap × PouKey)) :
+    ∀ (next : Nat) (A : AMap PouMap PouKey Nat), ks.Nodup → next + ks.length ≤ u32Max →
+      (den (insertAllP ks next) A).1 = next + ks.length ∧
+      (den (insertAllP ks next) A).2.f = keysF ks next A.f := by
+  induction ks with
+  | nil =>
+    intro next A _ _
+    refine ⟨by simp [insertAllP, den], ?_⟩
+    funext m k
+    simp [insertAllP, den, keysF, idxOf?]
+  | cons p ks ih =>
+    obtain ⟨m, k⟩ := p
+    intro next A hnd hlen
+    simp only [List.length_cons] at hlen
+    have hnd' := List.nodup_cons.mp hnd
+    have ha : allocId next = (next, next + 1) := allocId_of_le (by omega)
+    obtain ⟨ih1, ih2⟩ := ih (next + 1)
+      (A.put m k (some next) (if (A.f m k).isSome then A.n m else A.n m + 1)) hnd'.2 (by omega)
+    simp only [insertAllP, ha, den]
+    refine ⟨by rw [ih1]; simp only [List.length_cons]; omega, ?_⟩
+    rw [ih2]
+    funext m' k'
+    simp only [keysF, idxOf?]
+    by_cases e : (m, k) = (m', k')
+    · have em : m = m' := (Prod.mk.inj e).1
+      have ek : k = k' := (Prod.mk.inj e).2
+      subst em; subst ek
+      have hnone : idxOf? (m, k) ks = none := by
+        rw [idxOf?_eq_none_iff]; exact hnd'.1
+      simp [hnone, AMap.put]
+    · cases hj : idxOf? (m', k') ks with
+      | some j => simp [e, Nat.add_assoc, Nat.add_comm 1 j]
+      | none =>
+        have : ¬ (m' = m ∧ k = k') := fun ⟨a, b⟩ => e (by rw [a, b])
+        simp only [e, if_false, Option.map_none, AMap.put]
+        by_cases em : m' = m
+        · have ek : ¬ k = k' := fun b => this ⟨em, b⟩
+          simp [em, ek]
+        · simp [em]
+
+theorem den_insertAllP_append (xs ys : List (PouMap × PouKey)) :
+    ∀ (next : Nat) (A : AMap PouMap PouKey Nat),
+      den (insertAllP (xs ++ ys) next) A =
+        den (insertAllP ys (den (insertAllP xs next) A).1) (den (insertAllP xs next) A).2 := by
+  induction xs with
+  | nil => intro next A; simp [insertAllP, den]
+  | cons p xs ih =>
+    obtain ⟨m, k⟩ := p
+    intro next A
+    simp only [List.cons_append, insertAllP, den]
+    exact ih _ _
+
+theorem insertNamesP_eq (norm : String → String) (m : PouMap) (ns : List String) :
+    ∀ next, insertNamesP norm m ns next = insertAllP (ns.map fun n => (m, ("", norm n))) next := by
+  induction ns with
+  | nil => intro next; rfl
+  | cons n ns ih => intro next; simp only [insertNamesP, List.map_cons, insertAllP, ih]
+
+theorem insertMethodsP_eq (norm : String → String) (owner : String) (ms : List String) :
+    ∀ next, insertMethodsP norm owner ms next =
+      insertAllP (ms.map fun n => (PouMap.methods, (norm owner, norm n))) next := by
+  induction ms with
+  | nil => intro next; rfl
+  | cons n ns ih => intro next; simp only [insertMethodsP, List.map_cons, insertAllP, ih]
+
+theorem den_insertOwnersP (norm : String → String) (os : List (String × List String)) :
+    ∀ (next : Nat) (A : AMap PouMap PouKey Nat),
+      den (insertOwnersP norm os next) A =
+        den (insertAllP (os.flatMap fun o => o.2.map fun n => (PouMap.methods, (norm o.1, norm n))) next) A := by
+  induction os with
+  | nil => intro next A; rfl
+  | cons o os ih =>
+    obtain ⟨owner, ms⟩ := o
+    intro next A
+    simp only [insertOwnersP, den_bind, List.flatMap_cons, den_insertAllP_append, insertMethodsP_eq, ih]
+
+theorem den_buildP (norm : String → String) (r : PouNames) (A : AMap PouMap PouKey Nat) :
+    den (buildP norm r) A = den (insertAllP (allKeys norm r) 0) A := by
+  simp only [buildP, allKeys, den_bind, den_insertAllP_append, insertNamesP_eq, den_insertOwnersP,
+    List.map_map]
+  rfl
+
+theorem den_rowsNamesP (norm : String → String) (kind : Nat) (m : PouMap) (ns : List String)
+    (A : AMap PouMap PouKey Nat) :
+    den (rowsNamesP norm kind m ns) A =
+      (ns.map fun n => (⟨kind, n, A.f m ("", norm n), none⟩ : PouRow), A) := by
+  induction ns with
+  | nil => rfl
+  | cons n ns ih => simp [rowsNamesP, den_bind, nameIdP, den, ih]
+
+theorem den_rowsMethodsP (norm : String → String) (ownerMap : PouMap) (owner : String)
+    (ms : List String) (A : AMap PouMap PouKey Nat) :
+    den (rowsMethodsP norm ownerMap owner ms) A =
+      (ms.map fun n =>
+        (⟨4, n, A.f .methods (norm owner, norm n), A.f ownerMap ("", norm owner)⟩ : PouRow), A) := by
+  induction ms with
+  | nil => rfl
+  | cons n ns ih => simp [rowsMethodsP, den_bind, nameIdP, methodIdP, den, ih]
+
+theorem den_rowsOwnersP (norm : String → String) (ownerMap : PouMap)
+    (os : List (String × List String)) (A : AMap PouMap PouKey Nat) :
+    den (rowsOwnersP norm ownerMap os) A =
+      (os.flatMap fun o => o.2.map fun n =>
+        (⟨4, n, A.f .methods (norm o.1, norm n), A.f ownerMap ("", norm o.1)⟩ : PouRow), A) := by
+  induction os with
+  | nil => rfl
+  | cons o os ih =>
+    obtain ⟨owner, ms⟩ := o
+    simp [rowsOwnersP, den_bind, den_rowsMethodsP, den, ih]
+
+/-- The POU index in the order-free semantics. -/
+theorem den_pouIndexP (norm : String → String) (r : PouNames)
+    (hnd : (allKeys norm r).Nodup) (hlen : (allKeys norm r).length ≤ u32Max) :
+    (den (pouIndexP norm r) AMap.empty).1 =
+      rowsPure norm r (fun m k => idxOf? (m, k) (allKeys norm r)) := by
+  obtain ⟨_, hf⟩ := den_insertAllP (allKeys norm r) 0 AMap.empty hnd (by omega)
+  have hf' : (den (insertAllP (allKeys norm r) 0) (AMap.empty : AMap PouMap PouKey Nat)).2.f =
+      fun m k => idxOf? (m, k) (allKeys norm r) := by
+    rw [hf]
+    funext m k
+    simp only [keysF, AMap.empty]
+    cases idxOf? (m, k) (allKeys norm r) <;> simp
+  simp only [pouIndexP, den_bind, den_buildP, den_rowsNamesP, den_rowsOwnersP, den, hf', rowsPure]
+
+end Pou
 
 end TrustVerif.C05
